@@ -21,6 +21,10 @@
 (*   <<"httpError", code, n>>     http.Error(c.Resp, n-1 byte msg, code)   *)
 (*   <<"err">>                    c.AddError(e)                            *)
 (*   <<"panic">>                  panic(v)                                 *)
+(*   <<"redispatch", b>>          r.HandleContext(c) from the LAST handler *)
+(*                                of a chain: Reset(), then a complete     *)
+(*                                dispatch of the handlers b+1.. on the    *)
+(*                                same context and the same writer         *)
 (*   <<"catchnext">>              handlers.PanicsHandler(): c.Next() under *)
 (*                                a deferred recover that sets status 500  *)
 (*                                                                         *)
@@ -66,14 +70,15 @@ ApplyW(w, op) == CASE op[1] = "status"      -> WHeader(w, op[2])
                    [] OTHER                 -> w
 
 (* C08, declarative: computed from the sequence of writer ops the handlers executed, not from the writer *)
-Commits(op)   == op[1] \in {"write", "flush", "httpError"}
+Commits(op)   == op[1] \in {"write", "flush", "httpError", "commit"}      \* "commit": the end-of-dispatch commit of a nested dispatch
+Emits(op)     == op[1] \in {"write", "flush", "httpError"}
 StatusArg(op) == IF op[1] \in {"status", "abortStatus", "httpError"} THEN op[2] ELSE 0
 RECURSIVE ExpStatus(_, _, _)
 ExpStatus(wops, i, cur) ==            \* last positive status set before the first write or flush (200 if none)
   IF i > Len(wops) THEN (IF cur = 0 THEN 200 ELSE cur)
   ELSE LET c == StatusArg(wops[i])  cur2 == IF c > 0 THEN c ELSE cur IN
        IF Commits(wops[i]) THEN (IF cur2 = 0 THEN 200 ELSE cur2) ELSE ExpStatus(wops, i + 1, cur2)
-BodyOps(wops) == SelectSeq(wops, LAMBDA op : Commits(op))
+BodyOps(wops) == SelectSeq(wops, LAMBDA op : Emits(op))
 ExpUnderOf(op) == CASE op[1] = "write" -> <<"W", op[2], Accepted(op[2], op[3])>>
                     [] op[1] = "httpError" -> <<"W", op[3], op[3]>>
                     [] op[1] = "flush" -> <<"FL">>
@@ -97,6 +102,11 @@ IRunHandler(chain, st, h, pc) ==
        CASE op[1] = "in"    -> IRunHandler(chain, [st EXCEPT !.log = Append(@, <<"in", h, st.ab>>)], h, pc + 1)
          [] op[1] = "out"   -> IRunHandler(chain, [st EXCEPT !.log = Append(@, <<"out", h, st.ab>>)], h, pc + 1)
          [] op[1] = "next"  -> IRunHandler(chain, IRunNext(chain, st), h, pc + 1)
+         [] op[1] = "redispatch" ->
+              \* Context.Reset clears cursor, abort mark and errors but NOT the writer; the nested dispatch ends with its own
+              \* end-of-dispatch commit; the cursor it leaves behind ends the outer loop (or carries an abort mark)
+              LET r == IRunNext(chain, [st EXCEPT !.started = op[2], !.ab = FALSE, !.errs = 0]) IN
+              IRunHandler(chain, IF r.pan THEN r ELSE [r EXCEPT !.w = WEnsure(@), !.wops = Append(@, <<"commit">>)], h, pc + 1)
          [] op[1] = "catchnext" ->      \* a panic below is recovered here: status 500, this handler goes on; the handlers
                                         \* after the panicking one are still started by the enclosing loop
               LET r == IRunNext(chain, st) IN
